@@ -1912,3 +1912,14 @@ pub fn type_check_module(
     local_cx,
   )
 }
+
+/// Verification hook for C13 (add-only, compiled only with `--cfg samlang_verif`): the private
+/// classification that decides whether an argument of a generic call is checked without a hint.
+#[cfg(samlang_verif)]
+pub mod verif_hooks {
+  pub fn arguments_should_be_checked_without_hint(
+    e: &samlang_ast::source::expr::E<()>,
+  ) -> bool {
+    super::arguments_should_be_checked_without_hint(e)
+  }
+}
